@@ -200,8 +200,9 @@ inductive Expect | exact (s : String) | skip (why : String)
 def expect (r : Res Float) : Expect :=
   match r with
   | (.val _ v, st) => .exact ("v:" ++ canon st 13 v)
-  | (.err (.script .user m), _) => .exact ("e:user:" ++ (if m == "" then "-" else hex m))
-  | (.err (.script k _), _) => .exact ("e:" ++ k.name)
+  -- error kinds other than the recursion error are not part of the protocol (the harness does not read message texts)
+  | (.err (.script .stack _), _) => .exact "e:stack"
+  | (.err (.script _ _), _) => .exact "e"
   | (.err .fuel, _) => .skip "fuel"
   | (.err (.unmodelled w), _) => .skip ("unmodelled:" ++ w)
   | (.err (.internal w), _) => .exact ("internal:" ++ w)
@@ -291,7 +292,7 @@ def step (stt : Stats) (lineNo : Nat) (line : String) : IO Stats := do
               | none => pure ()
           stt := { stt with compared := stt.compared + 1,
                             values := stt.values + (if e.startsWith "v:" then 1 else 0),
-                            scriptErrors := stt.scriptErrors + (if e.startsWith "e:" then 1 else 0),
+                            scriptErrors := stt.scriptErrors + (if e.startsWith "e" then 1 else 0),
                             stackErrors := stt.stackErrors + (if e == "e:stack" then 1 else 0),
                             nontrivial := stt.nontrivial + (if ast.length > 6 then 1 else 0) }
           if Spec.isCrash o.min then return stt      -- already reported by the spec
